@@ -1,10 +1,26 @@
 -------------------------- MODULE ClientConfigGen --------------------------
 (* Row generator for ClientConfig: every terminal state (one row of the     *)
-(* decision table) is printed as JSON together with the documented          *)
-(* expectation.  BFS enumerates all rows within (Free, MaxDev, MaxInvalid); *)
-(* -simulate draws uniformly random rows of the full product (Next is one   *)
-(* action, TLC picks uniformly among its successors).                       *)
+(* decision table) is printed together with the documented expectation.     *)
+(* BFS enumerates all rows within (Free, MaxDev, MaxInvalid); -simulate     *)
+(* draws random rows of the full product.                                   *)
+(* A row is printed compactly (the thorough tier prints > 10^5 of them):    *)
+(*   "<18 option values in Order, comma separated>|<12 expected outputs in  *)
+(*    ExpFields order, comma separated; names joined by '+'>"               *)
+(* tools/props/c20.py turns it back into {cfg: {...}, exp: {...}}.          *)
 EXTENDS ClientConfig, TLC, Json
 
-Emit == Done => PrintT(<<"BEHAVIOUR", ToJson([cfg |-> cfg, exp |-> Expected(cfg)])>>)
+ExpFields == << "outcome", "mode", "browser", "wsHost", "wsPath", "singleplex", "numConn",
+                "keepAlive", "timeout", "names", "enc", "unordered" >>
+
+RECURSIVE Join(_, _, _)
+Join(s, sep, i) == IF i > Len(s) THEN ""
+                   ELSE IF i = Len(s) THEN s[i]
+                   ELSE s[i] \o sep \o Join(s, sep, i + 1)
+
+Row == LET e == Expected(cfg) IN
+         Join([i \in 1..Len(Order) |-> cfg[Order[i]]], ",", 1) \o "|" \o
+         Join([i \in 1..Len(ExpFields) |->
+                 IF ExpFields[i] = "names" THEN Join(e.names, "+", 1) ELSE e[ExpFields[i]]], ",", 1)
+
+Emit == Done => PrintT(<<"BEHAVIOUR", ToJson(Row)>>)
 =============================================================================
